@@ -21,12 +21,15 @@ SCEN.append({"nf": 3, "nd": 6, "fw": 3, "dw": 5, "circular": True, "order": "rot
 SCEN.append({"nf": 3, "nd": 6, "fw": 1, "dw": 5, "circular": True, "order": "rotated"})
 
 
-def _grid(c, nd, circular, order):
+def _grid(c, nd, circular, order, r_fixed=None):
     """stored directions of a uniform grid: spacing d = 360/nd (full circle) or 360/(nd+2)
     (partial grid), offset th0 in [0, d), stored rotated by r (or reversed)"""
     m = c.m
     d = 360.0 / nd if circular else 360.0 / (nd + 2)
-    r = c.int("r", 0, nd - 1)
+    if r_fixed is None:
+        r = c.int("r", 0, nd - 1)
+    else:
+        r = r_fixed
     th0 = c.real("th0", 0, d - 1e-3 if not m.symbolic else d)
     if m.symbolic:
         c.assume(th0 < d)
